@@ -39,7 +39,7 @@ def verify(src, sid, prop):
         demos = [f for f in glob.glob(os.path.join(src, "*_test.go"))]
         m = re.findall(r"go test[^\n`]*-run[^\n`]*", readme)
         cmd = m[0].strip() if m else "go test -vet=off -count=1 ."
-        cmd = cmd.replace("&lt;", "<").replace("&gt;", ">")
+        cmd = cmd.replace("&lt;", "<").replace("&gt;", ">").split(";")[0].split("&&")[0].strip()
         if "-vet=off" not in cmd:
             cmd = cmd.replace("go test", "go test -vet=off")
         pk = re.findall(r"(\./internal/[a-z]+/?|\./inputrc/?)", cmd)
@@ -67,16 +67,25 @@ def verify(src, sid, prop):
             res["status"] = "existing suite fails with the change: " + out[-400:]
             print(json.dumps(res, indent=1))
             return 1
+        PK = {"core": "internal/core", "history": "internal/history", "inputrc": "inputrc", "readline": ".", "completion": "internal/completion",
+              "display": "internal/display", "keymap": "internal/keymap", "macro": "internal/macro", "ui": "internal/ui", "strutil": "internal/strutil"}
+        tmap = {}
         for d in demos:
-            shutil.copy(d, target)
+            pn = re.search(r"^package (\w+)", open(d).read(), re.M).group(1)
+            tmap[d] = os.path.join(wt, PK.get(pn.replace("_test", ""), os.path.relpath(target, wt)))
+        if len(set(tmap.values())) == 1 and not pk:
+            only = os.path.relpath(list(tmap.values())[0], wt)
+            if only != "." and ("./" + only) not in cmd:
+                cmd = re.sub(r"\s\.\s*$", " ./" + only + "/", cmd + " ").strip()
+                res["demo_cmd"] = cmd
+        for d in demos:
+            shutil.copy(d, tmap[d])
         rc_with, out_with = sh(cmd, wt)
         res["ran"].append([cmd + " (with change)", rc_with])
         # 2. without the change: demo must pass
-        for d in demos:
-            os.rename(os.path.join(target, os.path.basename(d)), "/tmp/" + os.path.basename(d) + ".keep")
         sh("git checkout -- . && git clean -fdq", wt)
         for d in demos:
-            os.rename("/tmp/" + os.path.basename(d) + ".keep", os.path.join(target, os.path.basename(d)))
+            shutil.copy(d, tmap[d])
         rc_without, out_without = sh(cmd, wt)
         res["ran"].append([cmd + " (without change)", rc_without])
         ok = rc_with != 0 and rc_without == 0
